@@ -79,6 +79,8 @@ Theorem multinet_step_equals_standalone :
 Proof. intros. eapply multinet_step_lemma; eauto. Qed.
 Print Assumptions multinet_step_equals_standalone.
 
+(* 4. (includes: the caller's solver options **kwargs are forwarded to every calculation of a step - run_loop ->
+   run_time_step, multinet run_control -> initial run and recalculation after the controllers) *)
 (* 4. the loops register pipeflow as run function, PipeflowNotConverged is the first recognised error
    (the one re-raised), the multinet twins take both from the pandapipes set-up, and run_loop hands every
    step once and in order to pandapower's run_time_step *)
@@ -98,6 +100,10 @@ Theorem registered_run_and_errors :
   wget "multinet.ctrl.run_default_from_net_type" wiring = "yes" /\
   wget "multinet.ctrl.errors_default_from_net_type" wiring = "yes" /\
   wget "multinet.ctrl.relevant_nets" wiring = "all-nets-named-by-the-controllers" /\
+  wget "ts.run_loop_forwards_kwargs" wiring = "forwards-kwargs" /\
+  wget "multinet.ctrl.evaluate_forwards_kwargs" wiring = "forwards-kwargs" /\
+  wget "multinet.ctrl.initialization_forwards_kwargs" wiring = "forwards-kwargs" /\
+  wget "multinet.ctrl.run_control_forwards_kwargs" wiring = "forwards-kwargs" /\
   wget "multinet.ts.prepare" wiring = "pandapipes.multinet.control.run_control_multinet.prepare_run_ctrl" /\
   wget "multinet.ts.run_loop_origin" wiring = "pandapipes.timeseries.run_time_series.run_loop".
 Proof. vm_compute. repeat split; reflexivity. Qed.
